@@ -16,8 +16,8 @@ EXPLANATION = ("C14: the integer value (all 32 bits), sign, integer and fraction
                "bin() is lifted by a fork on the bit length, floats are exact dyadic rationals (every operation the code performs on them is exact in binary64 "
                "for <= 53 significant bits).")
 BOUNDS = {"quick": "unsigned 0..2^32-1 and signed |v| <= 2^31-1 complete (with arbitrary trailing bytes and a leading offset); floats: integer part < 2^32 (unsigned) / < 2^31 (signed), "
-                   "fraction K/128^p for p = 1, 2; info-time: all field values in range, years 2000..2099",
-          "thorough": "as quick plus p = 3"}
+                   "fraction K/128^p for p = 1, 2, 3; info-time: all field values in range, years 2000..2099",
+          "thorough": "same as quick"}
 OUTSIDE = ("write_latitude / write_longitude vs the XML view's round(x, 6): CPython's correctly-rounded decimal rounding is not expressible in the solver's FP theory - clause NOT decided; "
            "float values that are not multiples of 128^-p; p > 3")
 ASSUMPTIONS = ["floats handed to the writers are exactly representable (integer part + K/128^p within 53 significant bits), so binary64 arithmetic on them is exact",
@@ -202,7 +202,7 @@ def cases(tier, seed):
            Case("write-sequence-sint-same", "h_sint_sequence", dict(same=True), covers=["sequence"], budget_s=600, opts=dict(max_paths=8000), bounds="same 8-bit magnitude twice, signs and negative_zero flags of both calls symbolic"),
            Case("write-sequence-sint-indep", "h_sint_sequence", dict(same=False), covers=["sequence"], budget_s=600, opts=dict(max_paths=8000), bounds="two independent 5-bit magnitudes, signs and negative_zero flags symbolic"),
            Case("write-sequence-uint", "h_uint_sequence", {}, covers=["sequence"], budget_s=600, opts=dict(max_paths=8000), bounds="two independent 9-bit unsigned values written back to back")]
-    for p in ((1, 2) if tier == "quick" else (1, 2, 3)):
+    for p in (1, 2, 3):
         out.append(Case("ufloatvar-p%d" % p, "h_ufloat", dict(p=p), budget_s=600, opts=dict(max_paths=5000), bounds="I < 2^%d, K < 128^%d symbolic" % (min(32, 53 - 7 * p), p)))
         for neg in (False, True):
             out.append(Case("sfloatvar-p%d-%s" % (p, "neg" if neg else "pos"), "h_sfloat", dict(p=p, negative=neg), budget_s=600, opts=dict(max_paths=5000),
